@@ -199,8 +199,40 @@ func runC12(c *Ctx) {
 					return true
 				})
 			}
-			c.Check("R12.2", key+": the whole handles list becomes the level's handle set", cs.clause.Pos(), newHandles == 1, "lr.NewPrecedenceHandles is not called with the complete list rhs[1].Val...")
-			c.Check("R12.3", key+": the level is registered exactly once", cs.clause.Pos(), addPrec == 1, fmt.Sprintf("AddPrecedence is called %d times with the level built here", addPrec))
+			// when the direct shape is not there, the same two calls may sit in helpers of the package: count them deep; what is
+			// passed to them through the helpers' parameters is then not followed (undecided), but their absence is definite
+			deepNew, deepAdd := 0, 0
+			for _, st := range cs.clause.Body {
+				deepInspectNode(ev.pkg, st, 3, func(n ast.Node) bool {
+					if call, ok := n.(*ast.CallExpr); ok {
+						if fo, ok := objOf(info, call.Fun).(*types.Func); ok {
+							switch fo.Name() {
+							case "NewPrecedenceHandles":
+								deepNew++
+							case "AddPrecedence":
+								deepAdd++
+							}
+						}
+					}
+					return true
+				})
+			}
+			switch {
+			case newHandles == 1:
+				c.Pass("R12.2", key+": the whole handles list becomes the level's handle set", cs.clause.Pos(), "")
+			case deepNew == 1 && newHandles == 0:
+				c.Undecided("R12.2", key+": the whole handles list becomes the level's handle set", cs.clause.Pos(), "lr.NewPrecedenceHandles is called in a helper; what reaches it is not followed")
+			default:
+				c.Fail("R12.2", key+": the whole handles list becomes the level's handle set", cs.clause.Pos(), fmt.Sprintf("lr.NewPrecedenceHandles is called %d times with the complete list rhs[1].Val... (%d calls in all)", newHandles, deepNew))
+			}
+			switch {
+			case addPrec == 1:
+				c.Pass("R12.3", key+": the level is registered exactly once", cs.clause.Pos(), "")
+			case deepAdd == 1 && addPrec == 0:
+				c.Undecided("R12.3", key+": the level is registered exactly once", cs.clause.Pos(), "AddPrecedence is called in a helper (or with a value this rule does not follow)")
+			default:
+				c.Fail("R12.3", key+": the level is registered exactly once", cs.clause.Pos(), fmt.Sprintf("AddPrecedence is called %d times with the level built here (%d calls in all)", addPrec, deepAdd))
+			}
 		// ---- rule → lhs "=" rhs | lhs "="
 		case cs.prod.head == "rule":
 			checkRuleCase(c, ev, cs, key)
